@@ -30,7 +30,10 @@ def main():
         ok, msg = common.translate()
         if not ok:
             ctx.add_obligation('translator', False, msg[-600:])
-            ctx.violation('translator-failed', dict(kind='theorem', obligation='harness/translator.py', detail=msg[-1500:]), found_input=False)
+            # the tie to the source is broken: search the implementation alone for a concrete failing input before giving up
+            found = fallback_search(mod, ctx)
+            if not found:
+                ctx.violation('translator-failed', dict(kind='theorem', obligation='harness/translator.py', detail=msg[-1500:]), found_input=False)
             sys.exit(ctx.finish())
         from harness import impl
         impl.reset_meta()
@@ -61,6 +64,20 @@ def main():
         ctx.add_obligation('harness', False, tb[-800:])
         ctx.violation('harness-crashed:%s' % type(e).__name__, dict(kind='theorem', obligation='harness', detail=tb[-3000:]), found_input=False)
     sys.exit(ctx.finish())
+
+
+def fallback_search(mod, ctx):
+    """model unavailable (translator / build failed): evaluate the property's own predicate on generated inputs, implementation only.
+    Returns the number of violations found (known findings are recognised as usual)."""
+    if not hasattr(mod, 'pred'):
+        return 0
+    from harness.props import base
+    before = len(ctx.violations)
+    try:
+        base.search_texts(ctx, base.scale(ctx, 6000), mod.pred, 'fallback-' + ctx.pid.lower(), None)
+    except Exception:
+        ctx.add_obligation('fallback-search', False, traceback.format_exc()[-600:])
+    return len(ctx.violations) - before
 
 
 def generic_replay(mod, ctx, rp):
